@@ -16,13 +16,13 @@ package s2
 
 import "github.com/golang/geo/s1"
 
-// roundAngle returns the value rounded to nearest as an int32.
+// roundAngle returns the value rounded to nearest as an int64.
 // This does not match C++ exactly for the case of x.5.
-func roundAngle(val s1.Angle) int32 {
+func roundAngle(val s1.Angle) int64 {
 	if val < 0 {
-		return int32(val - 0.5)
+		return int64(val - 0.5)
 	}
-	return int32(val + 0.5)
+	return int64(val + 0.5)
 }
 
 // minAngle returns the smallest of the given values.
